@@ -63,12 +63,44 @@ static void patch_field(char* buf, int beg, int end)
          buf[i] = PATCH_CHAR;
 }
 
+/// reentrant replacement for strtok(), which keeps its position in a static variable that is shared by all threads
+static char* next_token(char* str, const char* delim, char** saveptr)
+{
+   char* s = (str != nullptr) ? str : *saveptr;
+
+   if(s == nullptr)
+      return nullptr;
+
+   s += strspn(s, delim);
+
+   if(*s == '\0')
+   {
+      *saveptr = nullptr;
+      return nullptr;
+   }
+
+   char* token = s;
+
+   s += strcspn(s, delim);
+
+   if(*s != '\0')
+   {
+      *s = '\0';
+      *saveptr = s + 1;
+   }
+   else
+      *saveptr = nullptr;
+
+   return token;
+}
+
 /// read a MPS format data line and parse the fields.
 bool MPSInput::readLine()
 {
    int   len;
    int   space;
    char* s;
+   char* saveptr = nullptr;
    bool  is_marker;
    bool  is_comment;
 
@@ -119,11 +151,11 @@ bool MPSInput::readLine()
        */
       if(*m_buf != BLANK)
       {
-         m_f0 = strtok(&m_buf[0], " ");
+         m_f0 = next_token(&m_buf[0], " ", &saveptr);
 
          assert(m_f0 != nullptr);
 
-         m_f1 = strtok(nullptr, " ");
+         m_f1 = next_token(nullptr, " ", &saveptr);
 
          return true;
       }
@@ -195,10 +227,10 @@ bool MPSInput::readLine()
        */
       do
       {
-         if(nullptr == (m_f1 = strtok(s, " ")))
+         if(nullptr == (m_f1 = next_token(s, " ", &saveptr)))
             break;
 
-         if((nullptr == (m_f2 = strtok(nullptr, " "))) || (*m_f2 == '$'))
+         if((nullptr == (m_f2 = next_token(nullptr, " ", &saveptr))) || (*m_f2 == '$'))
          {
             m_f2 = nullptr;
             break;
@@ -207,7 +239,7 @@ bool MPSInput::readLine()
          if(!strcmp(m_f2, "'MARKER'"))
             is_marker = true;
 
-         if((nullptr == (m_f3 = strtok(nullptr, " "))) || (*m_f3 == '$'))
+         if((nullptr == (m_f3 = next_token(nullptr, " ", &saveptr))) || (*m_f3 == '$'))
          {
             m_f3 = nullptr;
             break;
@@ -226,7 +258,7 @@ bool MPSInput::readLine()
          if(!strcmp(m_f3, "'MARKER'"))
             is_marker = true;
 
-         if((nullptr == (m_f4 = strtok(nullptr, " "))) || (*m_f4 == '$'))
+         if((nullptr == (m_f4 = next_token(nullptr, " ", &saveptr))) || (*m_f4 == '$'))
          {
             m_f4 = nullptr;
             break;
@@ -242,7 +274,7 @@ bool MPSInput::readLine()
                break; // unknown marker
          }
 
-         if((nullptr == (m_f5 = strtok(nullptr, " "))) || (*m_f5 == '$'))
+         if((nullptr == (m_f5 = next_token(nullptr, " ", &saveptr))) || (*m_f5 == '$'))
             m_f5 = nullptr;
       }
       while(false);
